@@ -117,6 +117,7 @@ def atom(key: str) -> Formula:
 
 
 EXHAUSTED: Formula = ("atom", "<the work list is exhausted>")
+FILLED = ("lib", "<elements added in a loop>")
 
 
 def _assignments(names: list[str]):
@@ -508,7 +509,9 @@ class SymX:
         keep: Callable[[FuncInfo], bool] | None = None,
         enter_ctor: Callable[[ClassInfo], bool] | None = None,
         max_depth: int = MAX_DEPTH,
+        first_id: int = 1,
     ) -> None:
+        self.first_id = first_id
         self.repo = repo
         self.T = types
         self.policy = policy
@@ -519,7 +522,7 @@ class SymX:
         self.loops: list[Loop] = []
         self.frames: list[Frame] = []
         self.atoms: dict[str, Term] = {}
-        self._ids = itertools.count(1)
+        self._ids = itertools.count(first_id)
         self.entry: FuncInfo | None = None
         self.notes: list[str] = []  # constructs that were approximated (diagnostics)
         self.repo_method_names = {n for c in repo.classes.values() for n in c.methods} | {f.name for f in repo.funcs.values() if f.cls is None and f.outer is None}
@@ -529,6 +532,7 @@ class SymX:
         self._iter_loops: dict[Term, tuple] = {}  # iterator term -> loops running when it was created
         self.mutable_sites: set[int] | None = None  # creation sites whose containers are mutated / escape (known after a first pass)
         self._site: ast.AST | None = None
+        self._loop_end: State | None = None
 
     # ------------------------------------------------------------------ entry
     def run(self, fi: FuncInfo, args: dict[str, Term] | None = None, self_term: Term | None = None, heap: dict | None = None) -> Trace:
@@ -557,7 +561,7 @@ class SymX:
         self.box_loops = {}
         self.box_init = {}
         self._iter_loops = {}
-        self._ids = itertools.count(1)
+        self._ids = itertools.count(self.first_id)
         self.notes = []
         self.mutable_sites = sites
         return self._run(fi, args, self_term, heap)
@@ -619,8 +623,10 @@ class SymX:
         cur = st.heap.get(key, recv[3])
         inside = [l.id for l in self.loops if l.id not in self.box_loops.get(recv[1], ())]
         new: Term
-        if inside or cur[0] in ("unk", "loopvar"):
-            new = ("unk", f"contents of {recv[2]}#{recv[1]} filled in a loop", recv[1])
+        if inside or cur[0] in ("unk", "loopvar") or cur[0] == "call" and cur[1] == FILLED:
+            # filled in a loop: order and number of the elements are unknown, but not what they are made of
+            old = cur[2] if cur[0] == "call" and cur[1] == FILLED else ((cur,) if cur[0] not in ("unk", "loopvar") and not (cur[0] in ("list", "set", "dict", "tuple") and not cur[1]) else ())
+            new = ("call", FILLED, tuple(old) + tuple(a for a in args if a not in old), ())
         elif name in ("append", "add") and len(args) == 1:
             new = ("binop", "+", cur, ("list", (args[0],)))
         elif name in ("extend", "update") and len(args) == 1:
@@ -935,7 +941,27 @@ class SymX:
 
     def _havoc_heap(self, st: State, keys: set, loop_id: int) -> None:
         for k in keys:
-            st.heap[k] = ("loopvar", f"contents#{k[1]}" if k[0] == "#box" else f"{show(k[0])}.{k[1]}", loop_id)
+            if k[0] == "#box":
+                # a container that is filled in the loop: what it holds is what it held before plus what the loop adds
+                prev = st.heap.get(k, self.box_init.get(k[1]))
+                if prev is not None and prev[0] == "call" and prev[1] == FILLED:
+                    st.heap[k] = prev
+                else:
+                    keep = () if prev is None or prev[0] in ("unk", "loopvar") or (prev[0] in ("list", "set", "dict", "tuple") and not prev[1]) or (prev[0] == "call" and not prev[2]) else (prev,)
+                    st.heap[k] = ("call", FILLED, keep, ())
+            else:
+                st.heap[k] = ("loopvar", f"{show(k[0])}.{k[1]}", loop_id)
+
+    @staticmethod
+    def _keep_filled(st: State, end: "State | None", changed: set) -> None:
+        """After a loop, a container filled in it holds (in unknown number and order) what the loop body added."""
+        if end is None:
+            return
+        for k in changed:
+            if k[0] == "#box":
+                v = end.heap.get(k)
+                if v is not None and v[0] == "call" and v[1] == FILLED:
+                    st.heap[k] = v
 
     def _loop_body(self, loop: Loop, body: list[ast.stmt], make_state: Callable[[set], State]) -> set:
         """Runs the body once; if it stores into fields of objects, runs it again with those fields opaque. Returns the stored keys."""
@@ -944,9 +970,10 @@ class SymX:
             mark = len(self.events)
             st = make_state(changed)
             self.loops.append(loop)
+            self._loop_end = None
             try:
                 if st.alive:
-                    self._block(body, st)
+                    self._loop_end = self._block(body, st)
             finally:
                 self.loops.pop()
             stored = {(e.recv, e.name) for e in self.events[mark:] if e.kind == "setattr"}
@@ -999,11 +1026,13 @@ class SymX:
                 return b
 
             changed = self._loop_body(loop, s.body, make)
+            end = self._loop_end
             st = pre
             for n in assigned:
                 if n in st.env or n in targets:
                     st.env[n] = ("loopvar", n, lid)
             self._havoc_heap(st, changed, lid)
+            self._keep_filled(st, end, changed)
         if s.orelse and st.alive:
             st = self._block(s.orelse, st)
         return st
@@ -1107,9 +1136,11 @@ class SymX:
             return b
 
         changed = self._loop_body(loop, s.body, make)
+        end = self._loop_end
         post = pre
         self._havoc_names(post, assigned, lid)
         self._havoc_heap(post, changed, lid)
+        self._keep_filled(post, end, changed)
         if s.orelse:
             post = self._block(s.orelse, post)
         return post
